@@ -114,8 +114,14 @@ def get_app():
     return app
 
 
-SYNTHETIC = ["syn2seg", "synntsc", "synts7", "synodd"]
-SYNTHETIC_OUTSIDE = ["synlong", "synzero"]
+SYNTHETIC = ["syn2seg", "synntsc", "synts7", "synodd", "synshort", "synlong", "synlong2"]
+SYNTHETIC_OUTSIDE = ["synzero"]
+# (stream, mode) pairs that are only reached through ledger witnesses
+OUTLASTING = ["synlong", "synlong2"]
+
+
+def excluded(stream: str, mode: str) -> bool:
+    return stream in OUTLASTING and mode == "live"
 
 
 def _add_synthetic(app):
@@ -143,12 +149,25 @@ def _add_synthetic(app):
         # a little longer than the video timing reference (by less than its last segment)
         "synodd_a2": mk("audio", 44100, [1323000, 1024, 88200, 100000], samples_per_segment=[1292, 1, 86, 98], seed=39, track_id=3)},
         timing_from="synodd_v1")
-    # outside the generators (ledger C05/D26, D27): a track that outlasts the timing reference by more than
-    # its last segment, and fragments numbered from 0
+    # tracks much shorter than the timing reference (by more than a segment) and a little shorter
+    mp4synth.register(app, "synshort", "Audio much shorter than the reference", {
+        "synshort_v1": mk("video", 1000, [4000] * 10, samples_per_segment=4, seed=44, track_id=1),
+        "synshort_a1": mk("audio", 44100, [176400] * 6, samples_per_segment=172, seed=45, track_id=2),
+        "synshort_a2": mk("audio", 44100, [176400] * 9 + [170000], samples_per_segment=[172] * 9 + [166], seed=46, track_id=3)},
+        timing_from="synshort_v1")
+    # a track that outlasts the timing reference by more than its last segment (video 10 x 4 s, audio
+    # 12 x 4 s, and one whose last segment is short).  vod / odvod manifests of it are part of the
+    # generators; LIVE manifests of it are ledger C05/D26 (negative S@d) and only its witness.
+    mp4synth.register(app, "synlong2", "Audio 12 x 4 s on a 10 x 4 s reference", {
+        "synlong2_v1": mk("video", 1000, [4000] * 10, samples_per_segment=4, seed=47, track_id=1),
+        "synlong2_a1": mk("audio", 44100, [176400] * 12, samples_per_segment=172, seed=48, track_id=2),
+        "synlong2_a2": mk("audio", 44100, [176400] * 10 + [88200, 1024], samples_per_segment=[172] * 10 + [86, 1], seed=49, track_id=3)},
+        timing_from="synlong2_v1")
     mp4synth.register(app, "synlong", "Audio outlasts the reference", {
         "synlong_v1": mk("video", 1000, [30000, 4000], samples_per_segment=[30, 4], seed=40, track_id=1),
         "synlong_a1": mk("audio", 44100, [1323000, 264600, 441000], samples_per_segment=[1292, 258, 431], seed=41, track_id=2)},
         timing_from="synlong_v1")
+    # outside the generators in every mode (ledger C05/D27): fragments numbered from 0
     mp4synth.register(app, "synzero", "Fragments numbered from 0", {
         "synzero_v1": mk("video", 1000, [4000, 4000, 4000], samples_per_segment=4, seed=42, track_id=1, start_number=0),
         "synzero_a1": mk("audio", 44100, [176400, 176400, 176400], samples_per_segment=172, seed=43, track_id=2, start_number=0)},
@@ -336,7 +355,7 @@ def gen_options(rng, mft: dict, mode: str, stream: str, kind: str) -> list:
     return q
 
 
-STREAMS_SINGLE = ["bbb", "bbb", "tears", "syn1", "syn2"] + sorted(LAYOUTS) + ["syn2seg", "synntsc", "synts7", "synodd"]
+STREAMS_SINGLE = ["bbb", "bbb", "tears", "syn1", "syn2"] + sorted(LAYOUTS) + SYNTHETIC
 DRM_CHOICES = ["all", "clearkey", "playready", "marlin", "playready-pro", "playready-cenc", "playready-moov",
                "clearkey-cenc", "clearkey-moov", "marlin-cenc", "all-moov", "all-cenc", "marlin,clearkey",
                "playready,marlin", "clearkey,playready-pro", "none"]
@@ -404,6 +423,8 @@ def gen_case(rng, hostile: bool = True, force: dict | None = None) -> dict:
     stream = rng.choice(sorted(MPS_DEFS)) if kind == "multi" else rng.choice(STREAMS_SINGLE)
     if "stream" in force:
         stream = force["stream"]
+    if kind != "multi" and excluded(stream, mode):
+        stream = "synshort"
     query = gen_options(rng, mft, mode, stream, kind)
     now = datetime.datetime(2024, 1, 2, tzinfo=datetime.timezone.utc) + datetime.timedelta(
         seconds=rng.randrange(0, 700 * 86400), microseconds=rng.choice([0, 0, 500000, rng.randrange(1000000)]))
